@@ -63,6 +63,26 @@ CHECKS["C17"] = dict(cat="model_checking", engine="DebugControl", ref="§5 C17",
          "recorded through the runtime's ST_DEBUG_TRACE lines, which are emitted under the DebugState mutex, and TLC must find a behaviour of "
          "the specification that explains every event; the final variables must equal an undebugged run's.",
     note="OS-chosen schedules plus seeded delays/bursts, not exhaustive on the code; unlogged choices (breakpoint set, set_current_thread time) inferred by TLC; DAP adapter layer not covered")
+CHECKS["C13"] = dict(cat="model_checking", engine="HirDb", ref="§5 C13",
+    tech="TLA+ HirDb spec (triple bookkeeping of the analysis database, model-checked with TLC) + TLC-exported and random edit histories run on the real trust_hir::Database next to brand-new databases, traces validated by TLC",
+    text="TLC checks InputsInSyncAtQuery, AnswerEqualsFresh, RepeatQueryStable, NoPanic and MemoSound on every history of set/remove/re-add/query "
+         "up to the bound over cross-referencing contents, and three seeded slips of the bookkeeping must violate AnswerEqualsFresh; every history "
+         "up to length 3 (quick) / 4 (thorough) exported by TLC breadth-first, TLC -simulate scripts and seeded random histories over 1..5 files "
+         "(cross-file functions and types, duplicate declarations with different types, same-length twin contents, broken, empty and randomly "
+         "damaged texts) run on one long-lived Database; at every query the diagnostics / analyze / file_symbols / type_of answers are compared "
+         "(==) with two brand-new databases loaded in ascending and descending order and with the query's repetition, and the resolved/unresolved "
+         "status and call types of the scripted names are validated against the specification's answer function by TLC; panics and aborts are recorded as events.",
+    note="trusts salsa's dependency tracking relative to its inputs, TLC and the harness projection; a disagreement of the abstract analysis with BOTH databases is counted, not reported; arbitrary contents are small (< 1 KiB)")
+CHECKS["C20"] = dict(cat="model_checking", engine="ResourceThreads", ref="§5 C20",
+    tech="TLA+ ResourceThreads spec: all interleavings + liveness with TLC (split-lock variant must fail); real resource threads under a seeded controller validated by TLC as an interleaving of atomic cycles",
+    text="TLC explores every interleaving of the resource loop steps (stop check, command drain, paused sleep, lock, sync-into, execute, "
+         "sync-from, sleep on the manual clock with its sticky interrupt, fault exit) of 2 resources with a controller (pause, resume, stop, "
+         "clock advance) and checks NoLostUpdate, PairedEqual, PausedMeansNoExec, StopSavesOnce, FaultIsolation and Stop ~> exited; the variant "
+         "that releases the lock between sync-into and sync-from must violate NoLostUpdate. 150+ real multi-threaded runs (2..4 "
+         "ResourceRunner::spawn_with_shared threads, shared ManualClock, start gate, free-running and clock-paced) record every cycle from inside "
+         "execute_cycle and every controller action/observation (state polls, Snapshot command replies, join results, retain-save counts); TLC "
+         "must find an interleaving of atomic cycles that explains both streams.",
+    note="OS schedules, not exhaustive on the code; liveness on the code is bounded waiting (20-30 s) under repeated clock advances")
 NOT_YET = "check not built yet in this round (see DESIGN.md build order); no claim made"
 
 
@@ -96,6 +116,8 @@ def main():
             "add_only": True,
         },
         "engines": [
+            {"name": "HirDb", "path": "spec/HirDb.tla", "serves_properties": ["C13"], "kind_free_text": "TLA+ module + MC instance + trace refinement; harness sub-commands hirdb-gen / hirdb-run"},
+            {"name": "ResourceThreads", "path": "spec/ResourceThreads.tla", "serves_properties": ["C20"], "kind_free_text": "TLA+ module + MC (safety + liveness) + stream-merging trace refinement; harness sub-command resource-run"},
             {"name": "DebugControl", "path": "spec/DebugControl.tla", "serves_properties": ["C17"],
              "kind_free_text": "TLA+ module + MC instance (safety + liveness) + nondeterministic trace refinement; harness sub-command debug-run"},
             {"name": "RetainFile", "path": "spec/RetainFile.tla", "serves_properties": ["C10"],
